@@ -131,7 +131,7 @@ package keeper
 // represented in the price table: no validator's fresh prices are dropped because another validator has none.
 //@ func (k Keeper) CalculatePrices
 //@ modifies Store_feeds, Other
-//@ assert 6: forall j :: 0 <= j && j < len(validatorsByPower) ==> (has(Store_feeds, types.ValidatorPriceListStoreKey(validatorsByPower[j].Address)) ==> has(allValidatorPrices, addrstr(validatorsByPower[j].Address)))
+//@ assert before params: forall j :: 0 <= j && j < len(validatorsByPower) ==> (has(Store_feeds, types.ValidatorPriceListStoreKey(validatorsByPower[j].Address)) ==> has(allValidatorPrices, addrstr(validatorsByPower[j].Address)))
 //@ loop 0: invariant Store_feeds == old(Store_feeds)
 //@ loop 0: invariant forall j :: 0 <= j && j < #i ==> (has(Store_feeds, types.ValidatorPriceListStoreKey(validatorsByPower[j].Address)) ==> has(allValidatorPrices, addrstr(validatorsByPower[j].Address)))
 //@ loop 3: invariant forall j :: 0 <= j && j < len(validatorPriceInfos) ==> validatorPriceInfos[j].Power >= 0
